@@ -254,6 +254,52 @@ def sc_churn(name, seed, mtu, rounds=5, all_entries=False, strangers=True):
     return Scenario(name, s.lines, {"mtu": mtu, "seed": seed})
 
 
+def sc_multihome(name, seed, n=120):
+    """Several interfaces served by one responder instance, each with its own mapper, its own traffic and long
+    silences: what an interface retains is its own business whatever happens (or does not happen) on the others,
+    and a topology Reset on it leaves its constant record only."""
+    rng = random.Random(seed)
+    s = Script()
+    std_cfg(s, icon=(rng.choice([900, 3000]), 7))
+    ids = [1, 2, 3]
+    macs = {i: rnd_mac(rng) for i in ids}
+    mp = {1: M1, 2: M2, 3: X}
+    for i in ids:
+        s.boot(i, macs[i], mtu=rng.choice([576, 1500, 1500, 9000]), wifi=i & 1, fill=0xA5, **attrs_default(wifi=i & 1))
+    for i in ids:
+        s.rx(i, reset(mp[i]))       # baseline: the record exists, nothing else
+    seq = 1
+    for _ in range(n):
+        i = rng.choice(ids)
+        own, m = macs[i], mp[i]
+        seq += 1
+        x = rng.random()
+        if x < 0.15:
+            f = discover(rng.choice([0, 0, 1]), m, gen=rng.randrange(1, 65536), seq=seq)
+        elif x < 0.35:
+            a = rnd_mac(rng)
+            f = probe(a, own, a, own, train=rng.random() < 0.3)
+        elif x < 0.45:
+            f = query(m, own, seq=seq)
+        elif x < 0.65:
+            f = query_large(m, own, rng.choice([0x0E, 0x0E, 0x11, 0x13]), rng.choice([0, 0, 5, 899]), seq=seq, tos=rng.choice([0, 0, 1]))
+        elif x < 0.72:
+            f = emit(m, own, [(1, 0, own, PEER)], seq=seq)
+        elif x < 0.82:
+            f = reset(m, tos=1)
+        elif x < 0.90:
+            f = reset(m, tos=0)
+        else:
+            f = discover(1, m, gen=rng.randrange(1, 65536), seq=seq)
+        s.rx(i, f)
+        if rng.random() < 0.35:
+            s.adv(rng.choice([1, 1000, 30000, 59999, 60000, 60001, 61000, 120000, 3600000]))
+    for i in ids:
+        s.rx(i, reset(mp[i]))
+        s.rx(i, reset(mp[i]))
+    return Scenario(name, s.lines)
+
+
 def sc_header_sweep(name, tos_list, ops, context, ver=1, dst_own=True):
     """one frame per (service byte, opcode) with a plausible body, from nobody / the bound mapper / a stranger;
     a Reset of both services in between keeps every frame's context the same"""
@@ -897,6 +943,8 @@ def campaign_c19(seed, tier):
         scs.append(sc_c19_flood("c19-flood-%d" % mtu, rng.randrange(1 << 30), mtu, n))
     for i in range(13 if tier == "quick" else 300):
         scs.append(sc_c19_idem("c19-idem-%d" % i, rng.randrange(1 << 30), MTUS[i % 3]))
+    for i in range(6 if tier == "quick" else 120):
+        scs.append(sc_multihome("c19-multihome-%d" % i, rng.randrange(1 << 30)))
     for i in range(3 if tier == "quick" else 40):
         scs.append(sc_churn("c19-churn-%d" % i, rng.randrange(1 << 30), [576, 590, 1500][i % 3], rounds=4))
     return scs
